@@ -132,7 +132,7 @@ fn map_noncontiguous() {
 // Tarjan over every digraph on 3 vertices (generic code; set/map/Vec models for its state).
 // @verif prop=C09 tier=quick fl=f2 feat=map4 role=array t=2400 mem=20 rec=::connect:4
 #[cfg_attr(kani, kani::proof)]
-#[cfg_attr(kani, kani::unwind(6))]
+#[cfg_attr(kani, kani::unwind(5))]
 pub fn c09_array_n3() {
     array::<3>();
 }
